@@ -33,7 +33,7 @@ package container
 //@   ensures forall u string :: u != uuid ==> dom(cq.current)[u] == old(dom(cq.current)[u]) && cq.current[u] == old(cq.current[u])
 //@   ensures cerr != nil && (ctr.State == arvados.ContainerStateQueued || ctr.State == arvados.ContainerStateLocked) ==> dom(cq.current)[uuid] == old(dom(cq.current)[uuid]) && cq.current[uuid] == old(cq.current[uuid])
 //@   ensures cq.current != nil && !(cerr != nil && (ctr.State == arvados.ContainerStateQueued || ctr.State == arvados.ContainerStateLocked)) ==> dom(cq.current)[uuid] && cq.current[uuid].InstanceType == cit && cq.current[uuid].Container == ctr
-//@ func Queue.notify trusted
+//@ func Queue.notify property C14
 //@   modifies nothing
 // poll talks to the API server without holding the lock: anything may happen
 // to the queue meanwhile.
